@@ -129,12 +129,17 @@ UnitBits(b) ==
              c3 == (1023 - p) * 16 + d1 \div 4096 + c2 \div 65536
          IN <<c3, c2 % 65536, c1 % 65536, c0 % 65536>>
 
+\* evaluated once by TLC (constant definitions are cached)
+UnitTable == [b \in 0..255 |-> UnitBits(b)]
+IntTable == [x \in 0..2047 |-> IntBits(x)]
+IntBitsT(x) == IF x \in 0..2047 THEN IntTable[x] ELSE IntBits(x)
+
 \* what a cell of canonical type ct with raw value v denotes, in the projection of the case's mode
 ExpectCell(ct, v, mode) ==
-    IF mode = "bits" THEN (IF ct = "uchar" THEN UnitBits(v) ELSE IntBits(v))
+    IF mode = "bits" THEN (IF ct = "uchar" THEN (IF v \in 0..255 THEN UnitTable[v] ELSE <<>>) ELSE IntBitsT(v))
     ELSE (IF ct = "uchar" THEN v * (D0 \div 255) ELSE v * D0)
 \* the VARIANT of the known deviation: a single 8-bit scalar left raw by the ascii reader
-RawCell(v, mode) == IF mode = "bits" THEN IntBits(v) ELSE v * D0
+RawCell(v, mode) == IF mode = "bits" THEN IntBitsT(v) ELSE v * D0
 
 (***************************************************************************)
 (* The observed mesh pm = [topo, idx, attrs (sequence of [n, ar, data]),   *)
